@@ -333,6 +333,21 @@ def r6_parent_counting(rule, root=None):
             if str(A.ftxt(l["iter"])) == "roots.iter().enumerate()":
                 lt = A.ftxt(l["body"])
                 ok_out = lt.fmatch("Slot::Reg($O)=>tape.push(SsaOp::Output($O,$K))") is not None or lt.fmatch("Slot::Reg($O)=>{tape.push(SsaOp::Output($O,$K));}") is not None
+                if not ok_out:
+                    # structurally: the Slot::Reg(o) arm pushes exactly Output(o, <this root's index>)
+                    lp = l["pat"]["pat"] if l["pat"].get("k") == "PType" else l["pat"]
+                    kname = A.binding_name(lp["elems"][0]) if lp.get("k") == "PTuple" and lp.get("elems") else None
+                    ks = {kname}
+                    for s_ in A.find(l["body"], "Let"):
+                        if s_.get("init") is not None and re.fullmatch(r"\(?%s(asu32)?\)?|u32::try_from\(%s\)\.unwrap\(\)|%s\.try_into\(\)\.unwrap\(\)" % ((re.escape(kname or "?"),) * 3), str(A.ftxt(s_["init"]))):
+                            ks.add(A.binding_name(s_["pat"]))
+                    for arm in A.find(l["body"], "Arm"):
+                        segs, subs = A.pat_variant(arm["pat"]) if arm["pat"].get("k") == "PTupleStruct" else (None, None)
+                        if segs and segs[-2:] == ["Slot", "Reg"] and subs and A.binding_name(subs[0]):
+                            o_ = A.binding_name(subs[0])
+                            pushes = [c_ for c_ in A.find(arm["body"], "MethodCall") if c_["method"] == "push" and A.ident(A.strip(c_["recv"])) == "tape"]
+                            if len(pushes) == 1 and any(str(A.ftxt(pushes[0]["args"][0])) == "SsaOp::Output(%s,%s)" % (o_, k_) for k_ in ks if k_):
+                                ok_out = True
                 mc = lt.fmatch("Slot::Immediate($M)=>{let$O=slot_count;")
                 ok_const = mc is not None and "(slot_count+=1);" in lt and lt.fmatch("tape.push(SsaOp::Output($O,$K));", bind={"$O": mc["$O"]}) is not None and lt.fmatch("tape.push(SsaOp::CopyImm($O,$M));", bind=mc) is not None
                 ok_idx = lt.fmatch("mapping[$R]") is not None
@@ -391,6 +406,10 @@ def r5b_lru(rule, root=None):
     # spellings that read the same state (`remove` does not touch node i itself, nor `head`)
     C3 = ("(i!=self.head)", "(i!=self.data[self.head].prev)")
     alt = {
+        "pop": [
+            # returning the head *after* moving it is returning the old head's predecessor
+            [("write", (), "self.head", "self.data[self.head].prev"), ("return", (), "new(self.head)", "")],
+        ],
         "remove": [
             [("write", (), "self.data[self.data[i].prev].next", "self.data[i].next"), ("write", (), "self.data[self.data[i].next].prev", "self.data[i].prev")],
             [("write", (), "self.data[self.data[i].next].prev", "self.data[i].prev"), ("write", (), "self.data[self.data[i].prev].next", "new(self.data[i].next)")],
